@@ -105,6 +105,22 @@ let s_preport rep =
     String.concat " " (List.map (fun (c, n) -> sz c ^ ":" ^ sz n) rep.pr_filtered);
     String.concat "#" (List.map (fun (d, rs) -> sz d ^ "=" ^ String.concat ";" (List.map (fun (x, y) -> s_read x ^ "/" ^ s_read y) rs)) rep.pr_files) ]
 
+(* ---- runner trace validation *)
+let event_of s =
+  match List.filter (fun x -> x <> "") (String.split_on_char ' ' s) with
+  | ["req"; w] -> EReq (nat_of_int (int_of_string w))
+  | ["send"; w; i] -> ESend (nat_of_int (int_of_string w), nat_of_int (int_of_string i))
+  | ["pill"; w] -> EPill (nat_of_int (int_of_string w))
+  | ["rfail"] -> ERFail
+  | ["take"; w; i] -> ETake (nat_of_int (int_of_string w), nat_of_int (int_of_string i))
+  | ["takebad"; w; i] -> ETakeBad (nat_of_int (int_of_string w), nat_of_int (int_of_string i))
+  | ["fin"; w] -> EFin (nat_of_int (int_of_string w))
+  | ["werr"; w] -> EWErr (nat_of_int (int_of_string w))
+  | ["recv"; w; i] -> ERecv (nat_of_int (int_of_string w), nat_of_int (int_of_string i))
+  | ["recvfin"; w] -> ERecvFin (nat_of_int (int_of_string w))
+  | ["recverr"] -> ERecvErr
+  | _ -> failwith ("event " ^ s)
+
 let run cmd (a : string array) : string =
   match cmd with
   | "qtrim" -> let (s, e) = quality_trim_index (zl a.(0)) (z1 a.(1)) (z1 a.(2)) (z1 a.(3)) in sz s ^ " " ^ sz e
@@ -156,6 +172,14 @@ let run cmd (a : string array) : string =
       (match make_from_spec (zl a.(0)) t g recs with
        | Err -> "Err"
        | Ok l -> String.concat ";" (List.map s_out l))
+  (* trace W|C|bad chunk indices|rfail ("" or k)|event;event;...|ffail (0/1) *)
+  | "trace" ->
+      let w = nat_of_int (List.hd (ints a.(0))) and c = nat_of_int (List.hd (ints a.(1))) in
+      let bads = List.map nat_of_int (ints a.(2)) in
+      let rf = (match ints a.(3) with [] -> None | k :: _ -> Some (nat_of_int k)) in
+      let (((((n, total), term), ok), wr), st) = validate_trace w c bads rf (Array.length a > 5 && String.trim a.(5) = "1") (List.map event_of (split ';' a.(4))) in
+      String.concat "|" [string_of_int (int_of_nat n); string_of_int (int_of_nat total); sb term; sb ok;
+                         String.concat " " (List.map (fun x -> string_of_int (int_of_nat x)) wr); string_of_int (int_of_nat st)]
   | "ppipeline" -> s_preport (prun_cli (poptions_of a) (List.map pair_of (split ';' a.(16))))
   | "pipeline" -> s_report (run_cli (options_of a) (List.map read_of (split ';' a.(16))))
   | _ -> failwith ("unknown command " ^ cmd)
